@@ -94,6 +94,41 @@ def run_case(case):
                 viol.append((sig + ':L2R:malformed', 'encode(x) is not a well-formed PDU for the reference parser: %s; x=%s'
                              % (exc, common.short(tree, 500))))
             _lengths_ok(obj, raw, viol, sig + ':L2R', tree)
+    # library -> reference after the object was changed in place (what AssociationAcceptor.accept does with the request's items)
+    if not case.get('r2l_only') and not case.get('lead') and tree['pdu'] in (1, 2, 4):
+        try:
+            if tree['pdu'] == 4 and len(tree['pdvs']) > 1:
+                part = dict(tree, pdvs=tree['pdvs'][:1])
+                obj2 = pdugen.from_tree(part)
+                obj2.encode()
+                for p in tree['pdvs'][1:]:
+                    obj2.data_value_items.append(P.PresentationDataValueItem(p['id'], p['data']))
+            elif tree['pdu'] in (1, 2) and tree['items'] and tree['items'][-1]['t'] == 0x50 and len(tree['items'][-1]['subs']) > 1:
+                part = dict(tree, items=tree['items'][:-1] + [dict(tree['items'][-1], subs=tree['items'][-1]['subs'][:1])])
+                obj2 = pdugen.from_tree(part)
+                obj2.encode()
+                for sb in tree['items'][-1]['subs'][1:]:
+                    obj2.variable_items[-1].user_data.append(pdugen.sub_from_tree(sb))
+            elif tree['pdu'] in (1, 2) and len(tree['items']) > 1:
+                part = dict(tree, items=tree['items'][:1])
+                obj2 = pdugen.from_tree(part)
+                obj2.encode()
+                for it in tree['items'][1:]:
+                    obj2.variable_items.append(pdugen.item_from_tree(it))
+            else:
+                obj2 = None
+            if obj2 is not None:
+                raw2 = obj2.encode()
+                parsed2 = ref_pdu.parse(raw2)
+                parsed2.pop('called_raw', None), parsed2.pop('calling_raw', None)
+                d2 = pdugen.diff(tree, parsed2)
+                if d2:
+                    viol.append((sig + ':L2R-after-mutation:fields', 'after appending items to an already encoded object the reference parse differs at %s; x=%s' % (d2, common.short(tree, 400))))
+                _lengths_ok(obj2, raw2, viol, sig + ':L2R-after-mutation', tree)
+        except ref_pdu.RefError as exc:
+            viol.append((sig + ':L2R-after-mutation:malformed', 'after appending items to an already encoded object the PDU is malformed: %s; x=%s' % (exc, common.short(tree, 400))))
+        except Exception as exc:
+            viol.append((sig + ':L2R-after-mutation:raises', 'encode after in-place change raised %r; x=%s' % (exc, common.short(tree, 400))))
     # reference -> library
     wire = ref_pdu.build(tree, ae_lead=case.get('lead', 0))
     chk = ref_pdu.parse(wire)
